@@ -236,9 +236,9 @@ func conScenario(stack bool, inner string, preload []int, threads [][]stepSpec, 
 func preloadOrder(p []int) []int { return p }
 
 func scenarios(tier string) []*vsched.Scenario {
-	b := 2
+	b, b3 := 2, 2
 	if tier == "thorough" {
-		b = 3
+		b, b3 = 4, 3
 	}
 	var out []*vsched.Scenario
 	type sc struct {
@@ -273,23 +273,30 @@ func scenarios(tier string) []*vsched.Scenario {
 		queue = append(queue,
 			sc{[]int{7, 8}, [][]stepSpec{{po(), o(1)}, {po(), o(2)}}},
 			sc{nil, [][]stepSpec{{o(1)}, {o(2)}, {po(), po()}}},
-			sc{[]int{7}, [][]stepSpec{{ta()}, {ta()}, {ta()}}})
+			sc{[]int{7}, [][]stepSpec{{ta()}, {ta()}, {ta()}}},
+			sc{nil, [][]stepSpec{{o(1), po(), o(3)}, {o(2), ta(), po()}}},
+			sc{[]int{7}, [][]stepSpec{{po(), pu(1)}, {ta(), o(2)}, {po()}}},
+			sc{nil, [][]stepSpec{{o(1), o(2)}, {po(), po()}, {ta(), o(3)}}},
+			sc{[]int{7, 8, 9}, [][]stepSpec{{po(), po()}, {ta(), ta()}}})
 		stack = append(stack,
 			sc{nil, [][]stepSpec{{ps(1)}, {ps(2)}, {pp(), pp()}}},
-			sc{[]int{7, 8}, [][]stepSpec{{pp(), ps(1)}, {pp(), ps(2)}}})
+			sc{[]int{7, 8}, [][]stepSpec{{pp(), ps(1)}, {pp(), ps(2)}}},
+			sc{nil, [][]stepSpec{{ps(1), pp(), ps(3)}, {ps(2), pp(), pp()}}},
+			sc{[]int{7}, [][]stepSpec{{pp(), ps(1)}, {pp(), ps(2)}, {pp()}}},
+			sc{[]int{7, 8, 9}, [][]stepSpec{{pp(), pp()}, {pp(), pp()}}})
 	}
 	for _, inner := range []string{"probe", "linked"} {
 		for _, s := range queue {
 			bb := b
-			if len(s.ts) == 3 && bb > 2 {
-				bb = 2
+			if len(s.ts) == 3 && bb > b3 {
+				bb = b3
 			}
 			out = append(out, conScenario(false, inner, s.pre, s.ts, bb))
 		}
 		for _, s := range stack {
 			bb := b
-			if len(s.ts) == 3 && bb > 2 {
-				bb = 2
+			if len(s.ts) == 3 && bb > b3 {
+				bb = b3
 			}
 			out = append(out, conScenario(true, inner, s.pre, s.ts, bb))
 		}
